@@ -1,7 +1,7 @@
 """C10 — link-layer envelopes are transparent: Nack, PIT token, wrapped packets (DESIGN §4 C10)."""
 import ast
 
-from .common import ctx, family, returns, calls_in_ctx, reach_from_succ, site, srcs_text, truthy_label, resolve_call, call_arg, bound_args
+from .common import ctx, family, returns, calls_in_ctx, reach_from_succ, site, srcs_text, truthy_label, resolve_call, call_arg, bound_args, alias_text
 from ..flow import callee_attr
 from ..loader import AnalysisError, norm, FuncT
 from ..models import models_of
@@ -57,7 +57,9 @@ def run(R):
         R.need(len(uses) >= 5, f'{rx.qual}: dispatch sites not found')
         for (n, e, fn) in uses:
             for s in rx.sources(n, e):
-                if s.kind == 'param' and s.expr == 'data':
+                # the received buffer itself is fine only when read through its own name (whose binding the unwrapping replaces);
+                # a copy taken earlier would still be the envelope after unwrapping
+                if s.kind == 'param' and s.expr == 'data' and isinstance(e, ast.Name) and e.id == 'data':
                     continue
                 if frag_pred(s):
                     continue
@@ -141,10 +143,17 @@ def run(R):
     # v1 goes through parse_lp_packet
     pl = ctx(R, LP + '.parse_lp_packet')
     inst = pl.qual + ' :: reason returned for a Nack header'
-    nack_tests = [t for t in pl.cfg.nodes if t.kind == 'test' and truthy_label(t.ast, 'ret.nack') is not None]
-    R.need(nack_tests, 'parse_lp_packet: no test of ret.nack')
+    # the parsed envelope is the local bound to parse_lp_packet_v2(...); its Nack header may be read through an alias
+    envs = [nm for n in pl.cfg.nodes for (nm, v) in pl.cfg.defs_of(n) if isinstance(v, ast.Call) and ast.unparse(v.func).endswith('parse_lp_packet_v2')]
+    R.need(len(set(envs)) == 1, 'parse_lp_packet: the parsed envelope is not bound to one local')
+    env_ = envs[0]
+
+    def al(e):
+        return ast.parse(alias_text(pl, e), mode='eval').body
+    nack_tests = [t for t in pl.cfg.nodes if t.kind == 'test' and truthy_label(al(t.ast), f'{env_}.nack') is not None]
+    R.need(nack_tests, f'parse_lp_packet: no test of {env_}.nack')
     t0 = nack_tests[0]
-    lab = truthy_label(t0.ast, 'ret.nack')
+    lab = truthy_label(al(t0.ast), f'{env_}.nack')
     rT = reach_from_succ(pl.cfg, t0, lab, follow_exc=False)
     viol = None
     okcount = 0
@@ -152,17 +161,27 @@ def run(R):
         if r.id not in rT or not isinstance(r.ast.value, ast.Tuple):
             continue
         first = r.ast.value.elts[0]
-        if isinstance(first, ast.Constant) and first.value is None:
+        bad = False
+        for s_ in pl.sources(r, first):
+            e_ = s_.expr if s_.kind == 'expr' else None
+            if isinstance(e_, ast.Constant) and e_.value is None:
+                bad = True
+            elif isinstance(e_, ast.Attribute) and e_.attr == 'nack_reason':
+                # a nullable element: every path from where it was read to this return must pass a not-None edge of a test on it
+                edges = set(nonnull_edges(pl, ast.unparse(e_)))
+                if isinstance(first, ast.Name):
+                    edges |= set(nonnull_edges(pl, first.id))
+                start = s_.node if s_.node is not r else None
+                redefs = {n.id for n in pl.cfg.nodes if isinstance(first, ast.Name) and n is not s_.node and any(nm == first.id for (nm, _) in pl.cfg.defs_of(n))}
+                reach = reach_from_succ(pl.cfg, start, removed_nodes=redefs, removed_edges=edges, follow_exc=False) if start is not None \
+                    else pl.cfg.reachable(removed_edges=edges)
+                if not edges or r.id in reach:
+                    bad = True
+        if bad:
             viol = r
-        elif ast.unparse(first).endswith('.nack_reason') and nullable_field_expr(P, M, first):
-            edges = nonnull_edges(pl, ast.unparse(first))
-            if not edges or r.id in pl.cfg.reachable(removed_edges=set(edges)):
-                viol = r
-            else:
-                okcount += 1
         else:
             okcount += 1
-        if ast.unparse(r.ast.value.elts[1]) != 'ret.fragment':
+        if alias_text(pl, r.ast.value.elts[1]) != f'{env_}.fragment':
             R.fail('C10.PRV.1', pl.qual + ' :: fragment returned', pl.qual, r.ast, 'the Fragment is not returned unmodified', site(pl, r.ast))
     if viol is not None:
         R.fail('C10.MPT.1', inst, pl.qual, viol.ast, 'a Nack header without NackReason is reported as "not a Nack" (reason None): the v1 front-end '
